@@ -28,7 +28,7 @@ pub mod c11_nostd;
 pub mod c17_osc;
 #[cfg(all(kani, feature = "c19"))]
 pub mod c19_envelope;
-#[cfg(all(kani, any(feature = "c04", feature = "c05", feature = "c07", feature = "c08", feature = "c12", feature = "c14", feature = "c18")))]
+#[cfg(all(kani, any(feature = "c04", feature = "c05", feature = "c07", feature = "c08", feature = "c11", feature = "c12", feature = "c14", feature = "c18")))]
 pub mod sigprobe;
 #[cfg(all(kani, feature = "c04"))]
 pub mod c04_adaptors;
